@@ -277,7 +277,13 @@ func execCase(k *Case) {
 
 func process(o *c.Out, k *Case) {
 	execCase(k)
-	conv, restart, usable := false, false, true
+	conv, restart, usable, collide := false, false, true, false
+	for i := range k.Runs {
+		if collidingPairInMemory(&k.Runs[i]) {
+			collide = true
+			o.Count("run:restart-with-colliding-spellings-in-memory")
+		}
+	}
 	for _, r := range k.Runs {
 		if r.Crash != "" {
 			usable = false
@@ -319,7 +325,7 @@ func process(o *c.Out, k *Case) {
 			}
 		}
 	}
-	idx := o.Case("stream", coq(&kk), slim(&kk), conv && restart)
+	idx := o.Case("stream", coq(&kk), slim(&kk), (conv && restart) || collide)
 	o.CountN("runs", len(k.Runs))
 	for _, h := range monitor(o, k) {
 		h.Suite, h.Index = "stream", idx
@@ -348,7 +354,13 @@ func main() {
 		"set of failing state-file writes (directory renamed away / a directory at the file's path during that " +
 		"flush) and restart placements, plus random plans of 2-6 flushes; observed after every flush: error class " +
 		"of discovery.Run, in-memory aggregation, state file (own JSON reader); non-trivial = some run has a failed " +
-		"write followed by a successful one and a restart that drops a flush whose write failed")
+		"write followed by a successful one and a restart that drops a flush whose write failed. Collision streams (suite " +
+		"stream, and every fourth stream of suite faults): 1-3 groups of two or three spellings of ONE key that differ only by " +
+		"letter case of the method / host / path / consumer tag / interceptor id, surrounding spaces of method or tag, a " +
+		"trailing '/', the case of a percent escape, or text around the key delimiter ':::' in the URL, both spellings in the " +
+		"same stream with different counts, in any order of arrival, split threshold mostly 50 (no convergence); run unsplit, " +
+		"under every cut with and without a restart at the cut, and with a last restart after the final record; non-trivial " +
+		"there = some restart met two such spellings in memory")
 	var raw json.RawMessage
 	if suite, ok := o.ReplayCase(&raw); ok {
 		if suite == "faults" {
@@ -388,6 +400,23 @@ func main() {
 		}
 		k := genCase(o.Rng, maxLen)
 		k.Runs = batchings(o, len(k.Records))
+		process(o, &k)
+	}
+	// keys that collide under plausible normalisations, both spellings in one
+	// stream, a restart at every cut and after the last record (collisions.go)
+	for _, k := range collisionCorpus() {
+		k := k
+		k.Runs = collisionBatchings(len(k.Records))
+		o.Count("collision-stream:corpus")
+		process(o, &k)
+	}
+	ncol := o.Scale(40, 400, 600)
+	for i := 0; i < ncol; i++ {
+		k, kinds := genCollisionCase(o.Rng, 12)
+		k.Runs = collisionBatchings(len(k.Records))
+		for _, kind := range kinds {
+			o.Count("collision-stream:" + kind)
+		}
 		process(o, &k)
 	}
 	// failing writes of the state file (faults.go)
